@@ -52,6 +52,15 @@ impl Modules {
     }
 }
 
+#[cfg(feature = "verif")]
+impl Modules {
+    pub fn verif_names(&self) -> Vec<String> {
+        let mut names: Vec<String> = self.modules.keys().cloned().collect();
+        names.sort();
+        names
+    }
+}
+
 fn std_core() -> FunctionMap {
     let mut functions = FunctionMap::new();
 
